@@ -42,6 +42,7 @@ func runC08(r *an.Run) {
 	c08TypedNil(r)
 	failedResultNotUsed(r, "R9-value-of-a-failed-call-is-not-used")
 	c08SliceBounds(r)
+	physicalLines(r, "R11-physical-line-numbers")
 }
 
 func tokenEOF(r *an.Run) int64 {
